@@ -9,6 +9,7 @@ import PPV.Model.AssembleRun
 import PPV.Model.OptionsRun
 import PPV.Model.NewtonRun
 import PPV.Model.ConnectivityRun
+import PPV.Model.FixedNode
 
 open PPV
 
@@ -30,6 +31,14 @@ def handle (line : String) : String :=
     PPV.Model.Newton.Run.handle auto maxIter alpha0 (line.trimAscii.toString.splitOn "::")
   | "conn" :: n :: b :: _ =>
     PPV.Model.Connectivity.Run.handle n.toNat! b.toNat! (line.trimAscii.toString.splitOn "::")
+  | "fixed" :: v0 :: _ =>
+    -- `fixed <v0> :: sum num ; sum num ; …`  (rationals as p/q)  → value count
+    let groups := ((((line.trimAscii.toString.splitOn "::").getD 1 "").splitOn ";").filter (fun t => t.trimAscii.toString ≠ "")).map
+      fun g => match PPV.Model.Newton.Run.toks g with
+        | [a, b] => (PPV.Model.Newton.Run.parseRat a, b.toNat!)
+        | _ => ((0 : Rat), 0)
+    let r := PPV.Model.FixedNode.setEntries (α := Rat) ⟨PPV.Model.Newton.Run.parseRat v0, 0⟩ groups
+    s!"{PPV.Model.Newton.Run.showRat r.value} {r.count}"
   | _ => "bad-op"
 
 partial def loop (h : IO.FS.Stream) (out : IO.FS.Stream) : IO Unit := do
